@@ -6,7 +6,10 @@ import RtenVerif.Lemmas.OptimizeReplace
 # C01 — M1: a concrete (shape × data) operator semantics and `hsem` for real fusions
 
 `tsem F` is one concrete `Sem`: values are tensors `⟨shape, row-major data⟩` over an abstract scalar
-structure `F` (any field; only `x+0 = x`, `x-0 = x`, `x*1 = x`, `x/1 = x` are used). Elementwise binary
+structure `F` (only `x*1 = x`, `x/1 = x` are laws of the structure; for `x+z` / `x−z` the identity
+property `∀ x, x + z = x` of the *matched constant* `z` is a hypothesis of `hsem_identity`, because in
+IEEE arithmetic it holds for `z = −0.0` (resp. `+0.0` for subtraction) but NOT for `z = +0.0`:
+`−0.0 + 0.0 = +0.0` — open finding C01-identity-signed-zero, witness `signed_zero_add_law_false`). Elementwise binary
 operators broadcast (ONNX / NumPy rule `bshape`) when the shapes are equal or one operand is a
 single-element tensor — exactly the situations of the scalar-constant fusions; other broadcasts are
 outside this semantics (the operator fails). For a single-element operand of shape `[1,…,1]` the
@@ -29,8 +32,6 @@ structure Scalars (α : Type) where
   zero : α
   one : α
   sig : α → α
-  add_zero : ∀ x, add x zero = x
-  sub_zero : ∀ x, sub x zero = x
   mul_one : ∀ x, mul x one = x
   div_one : ∀ x, div x one = x
 
@@ -216,30 +217,37 @@ theorem map_id_of (f : α → α) (h : ∀ x, f x = x) (l : List α) : l.map f =
 operator as for a graph output) under the rank condition. -/
 theorem hsem_identity (E : Env (Ten α)) (c : Ten α) (hc : E 5 = some c) (h1 : allOnes c.shape = true)
     (hr : ∀ a, E 0 = some a → c.shape.length ≤ a.shape.length) :
-    (c.data = [F.zero] → run (tsem F) [opBinXC .add] E 1 = step (tsem F) E opIdent 1) ∧
-    (c.data = [F.zero] → run (tsem F) [opBinXC .sub] E 1 = step (tsem F) E opIdent 1) ∧
+    (∀ z, c.data = [z] → (∀ x, F.add x z = x) → run (tsem F) [opBinXC .add] E 1 = step (tsem F) E opIdent 1) ∧
+    (∀ z, c.data = [z] → (∀ x, F.sub x z = x) → run (tsem F) [opBinXC .sub] E 1 = step (tsem F) E opIdent 1) ∧
     (c.data = [F.one] → run (tsem F) [opBinXC .mul] E 1 = step (tsem F) E opIdent 1) ∧
     (c.data = [F.one] → run (tsem F) [opBinXC .div] E 1 = step (tsem F) E opIdent 1) := by
   cases hx : E 0 with
   | none =>
-    refine ⟨?_, ?_, ?_, ?_⟩ <;> intro _ <;>
-      simp [run, step, result, readAll, Op.reads, opBinXC, opIdent, hx, hc]
+    refine ⟨?_, ?_, ?_, ?_⟩
+    · intro _ _ _; simp [run, step, result, readAll, Op.reads, opBinXC, opIdent, hx, hc]
+    · intro _ _ _; simp [run, step, result, readAll, Op.reads, opBinXC, opIdent, hx, hc]
+    · intro _; simp [run, step, result, readAll, Op.reads, opBinXC, opIdent, hx, hc]
+    · intro _; simp [run, step, result, readAll, Op.reads, opBinXC, opIdent, hx, hc]
   | some a =>
-    refine ⟨?_, ?_, ?_, ?_⟩ <;> intro hd
-    · have hb := binop_scalar_right F.add a c F.zero hd h1 (hr a hx)
-      simp [run, step, result, readAll, Op.reads, opBinXC, opIdent, hx, hc, bind, tsem, hb, map_id_of _ F.add_zero]
-    · have hb := binop_scalar_right F.sub a c F.zero hd h1 (hr a hx)
-      simp [run, step, result, readAll, Op.reads, opBinXC, opIdent, hx, hc, bind, tsem, hb, map_id_of _ F.sub_zero]
-    · have hb := binop_scalar_right F.mul a c F.one hd h1 (hr a hx)
+    refine ⟨?_, ?_, ?_, ?_⟩
+    · intro z hd hz
+      have hb := binop_scalar_right F.add a c z hd h1 (hr a hx)
+      simp [run, step, result, readAll, Op.reads, opBinXC, opIdent, hx, hc, bind, tsem, hb, map_id_of _ hz]
+    · intro z hd hz
+      have hb := binop_scalar_right F.sub a c z hd h1 (hr a hx)
+      simp [run, step, result, readAll, Op.reads, opBinXC, opIdent, hx, hc, bind, tsem, hb, map_id_of _ hz]
+    · intro hd
+      have hb := binop_scalar_right F.mul a c F.one hd h1 (hr a hx)
       simp [run, step, result, readAll, Op.reads, opBinXC, opIdent, hx, hc, bind, tsem, hb, map_id_of _ F.mul_one]
-    · have hb := binop_scalar_right F.div a c F.one hd h1 (hr a hx)
+    · intro hd
+      have hb := binop_scalar_right F.div a c F.one hd h1 (hr a hx)
       simp [run, step, result, readAll, Op.reads, opBinXC, opIdent, hx, hc, bind, tsem, hb, map_id_of _ F.div_one]
 
 /-! ## the rank condition is needed (ℤ as scalars) -/
 
 def intScalars : Scalars Int :=
   { add := (· + ·), sub := (· - ·), mul := (· * ·), div := (· / ·), zero := 0, one := 1, sig := id,
-    add_zero := Int.add_zero, sub_zero := Int.sub_zero, mul_one := Int.mul_one, div_one := Int.ediv_one }
+    mul_one := Int.mul_one, div_one := Int.ediv_one }
 
 def envBad : Env (Ten Int) := fun i =>
   if i = 0 then some ⟨[3], [1, 2, 3]⟩ else if i = 5 then some ⟨[1, 1], [0]⟩ else none
@@ -249,6 +257,24 @@ def envBad : Env (Ten Int) := fun i =>
 theorem hsem_identity_rank_needed :
     run (tsem intScalars) [opBinXC .add] envBad 1 = some ⟨[1, 3], [1, 2, 3]⟩ ∧
     step (tsem intScalars) envBad opIdent 1 = some ⟨[3], [1, 2, 3]⟩ := by decide
+
+/-! ## signed zeros: `x + (+0)` is not an identity (open finding C01-identity-signed-zero) -/
+
+/-- the two IEEE zeros with IEEE addition restricted to them: `−0 + −0 = −0`, everything else `+0` -/
+inductive SZ | pz | nz
+deriving DecidableEq
+
+def SZ.add : SZ → SZ → SZ
+  | .nz, .nz => .nz
+  | _, _ => .pz
+
+/-- `z = −0` is an additive identity, `z = +0` is not (`−0 + +0 = +0`): IdentityFusion's removal of
+`Add(x, +0.0)` is not covered by `hsem_identity` — and is wrong on the real code at `x = −0.0`. -/
+theorem signed_zero_add_law_false :
+    (∀ x, SZ.add x .nz = x) ∧ ¬ (∀ x, SZ.add x .pz = x) := by
+  refine ⟨fun x => by cases x <;> rfl, fun h => ?_⟩
+  have := h .nz
+  exact absurd this (by decide)
 
 /-! ## `c01_rewrite_sound` instantiated: the Silu fusion inside a graph -/
 
@@ -278,10 +304,11 @@ theorem c01_silu_rewrite_instance (env : Env (Ten α)) (h1 : env 1 = none) (h2 :
 /-- consumer of the removed value: 2 = Sigmoid(1) -/
 def opPost1 : Op (FK α) := ⟨12, .sigmoid, [1], [], [2]⟩
 
-/-- `y = Sigmoid(x + 0)` with a zero constant whose rank does not exceed the rank of `x`: after
+/-- `y = Sigmoid(x + z)` with an identity constant `z` (`∀ x, x + z = x`) whose rank does not exceed the rank of `x`: after
 IdentityFusion (`Add` removed, its output replaced by `x` in the consumer) every value that was
 defined is unchanged. -/
-theorem c01_identity_replace_instance (env : Env (Ten α)) (c : Ten α) (hc : env 5 = some c) (hd : c.data = [F.zero])
+theorem c01_identity_replace_instance (env : Env (Ten α)) (c : Ten α) (z : α) (hz : ∀ x, F.add x z = x)
+    (hc : env 5 = some c) (hd : c.data = [z])
     (h1 : allOnes c.shape = true) (hr : ∀ a, env 0 = some a → c.shape.length ≤ a.shape.length)
     (e1 : env 1 = none) (e2 : env 2 = none) (v : Ten α)
     (h : run (tsem F) [opBinXC .add, opPost1] env 2 = some v) :
@@ -296,8 +323,8 @@ theorem c01_identity_replace_instance (env : Env (Ten α)) (c : Ten α) (hc : en
         cases hx : E 0 with
         | none => simp [step, result, readAll, Op.reads, opBinXC, hx, hEb] at hw
         | some a =>
-          have hb := binop_scalar_right F.add a c F.zero hd h1 (hr a (hE0 ▸ hx))
-          simp [step, result, readAll, Op.reads, opBinXC, hx, hE5, bind, tsem, hb, map_id_of _ F.add_zero] at hw
+          have hb := binop_scalar_right F.add a c z hd h1 (hr a (hE0 ▸ hx))
+          simp [step, result, readAll, Op.reads, opBinXC, hx, hE5, bind, tsem, hb, map_id_of _ hz] at hw
           rw [← hw])
     2 v h
   simpa using this
